@@ -138,6 +138,9 @@ func isImage(segPath string) bool {
 	return path.Ext(segPath) == ".jpg"
 }
 
+// timeCompareToleranceS absorbs float64 rounding errors when comparing times in seconds (1 microsecond).
+const timeCompareToleranceS = 1e-6
+
 // CheckTimeValidity checks if availTimeS is a valid time given current time and parameters.
 // Returns errors if too early, or too late. availabilityTimeOffset < 0 signals always available.
 func CheckTimeValidity(availTimeS, nowS, timeShiftBufferDepthS, availabilityTimeOffsetS float64) error {
@@ -149,7 +152,9 @@ func CheckTimeValidity(availTimeS, nowS, timeShiftBufferDepthS, availabilityTime
 	if availabilityTimeOffsetS > 0 {
 		availTimeS -= availabilityTimeOffsetS
 	}
-	if availTimeS > nowS {
+	// The times are float64 seconds; a segment that is available exactly at nowS must not be
+	// refused because of rounding in the subtraction above or in the millisecond conversion.
+	if availTimeS-nowS > timeCompareToleranceS {
 		return newErrTooEarly(int(math.Round((availTimeS - nowS) * 1000.0)))
 	}
 	if availTimeS < nowS-(timeShiftBufferDepthS+timeShiftBufferDepthMarginS) {
